@@ -244,6 +244,26 @@ def addConnections (ord : List Str → List Str) (g : XG) (parents : List Str) (
     | .error e => .error e
     | .ok g => g.addConnection p child) (.ok g)
 
+/-- the edge wiring of one new instance: `_source` when the step has no dependency at all,
+otherwise its ordinary parents, then for every funnel parent all of that parent's instances -/
+def wire (ord : List Str → List Str) (g : XG) (isRoot : Bool) (parents hubD : List Str)
+    (combos : List (Str × List Str)) (child : Str) : Except Err XG :=
+  if isRoot then g.addConnection SOURCE child
+  else
+    match addConnections ord g parents child with
+    | .error e => .error e
+    | .ok g =>
+      (ord hubD).foldl (fun acc parent => match acc with
+        | .error e => .error e
+        | .ok g => addConnections ord g (getAssoc combos parent) child) (.ok g)
+
+/-- `dag.add_step(...)` followed by the wiring -/
+def place (ord : List Str → List Str) (s : SS) (inst : Inst) (isRoot : Bool) (parents hubD : List Str) :
+    Except Err SS :=
+  match wire ord (s.g.addStep inst) isRoot parents hubD s.combos inst.name with
+  | .error e => .error e
+  | .ok g => .ok { s with g := g }
+
 /-- parameters a step uses directly: `get_used_parameters(node)` -/
 def directParams (spec : Spec) (st : Step) : List Str :=
   (spec.params.map (·.key)).filter (fun k => st.texts.any (usesParam k))
@@ -306,18 +326,7 @@ def stageStep (spec : Spec) (ord : List Str → List Str) (s : SS) (st : Step) :
                              cmd := replaceAll cmd wsTok workspace,
                              restart := replaceAll r wsTok workspace, params := [], rlimit := rlimit,
                              extras := st.extras }
-        let g := s.g.addStep inst
-        let g := if depD.isEmpty && hubD.isEmpty then g.addConnection SOURCE step
-          else
-            match addConnections ord g depD step with
-            | .error e => .error e
-            | .ok g =>
-              (ord hubD).foldl (fun acc parent => match acc with
-                | .error e => .error e
-                | .ok g => addConnections ord g (getAssoc s.combos parent) step) (.ok g)
-        match g with
-        | .error e => .error e
-        | .ok g => .ok { s with g := g }
+        place ord s inst (depD.isEmpty && hubD.isEmpty) depD hubD
     else
       -- 2. expand over every combination
       (List.range (nRows spec.params)).foldl (fun (acc : Except Err SS) row =>
@@ -346,19 +355,8 @@ def stageStep (spec : Spec) (ord : List Str → List Str) (s : SS) (st : Step) :
                                    restart := replaceAll r wsTok workspace,
                                    params := c.paramValues used, rlimit := rlimit,
                                    extras := st.extras.map fun (kv : Str × Str) => (kv.1, c.apply kv.2) }
-              let g := s.g.addStep inst
-              let g := if depD.isEmpty && hubD.isEmpty then g.addConnection SOURCE iname
-                else
-                  let parents := depD.map fun p => instName p (getAssoc s.used p) c
-                  match addConnections ord g parents iname with
-                  | .error e => .error e
-                  | .ok g =>
-                    (ord hubD).foldl (fun acc parent => match acc with
-                      | .error e => .error e
-                      | .ok g => addConnections ord g (getAssoc s.combos parent) iname) (.ok g)
-              match g with
-              | .error e => .error e
-              | .ok g => .ok { s with g := g }) (.ok s)
+              place ord s inst (depD.isEmpty && hubD.isEmpty)
+                (depD.map fun p => instName p (getAssoc s.used p) c) hubD) (.ok s)
 
 def initSS (root : Str) : SS :=
   { g := { insts := [], adj := [(SOURCE, [])], deps := [] },
